@@ -687,6 +687,38 @@ func c09Locks(c *Ctx, pk *packages.Package, putFn, getFn *ssa.Function) {
 						if sel, ok := kc.Fun.(*ast.SelectorExpr); ok && sel.Sel.Name == "Unlock" && identObj(info, sel.X) == v {
 							has = true
 						}
+						// `defer unlockAndJoin(unlocker, &retErr)`: a helper of the module that calls Unlock on the parameter it
+						// receives the unlocker in
+						if fn := Callee(info, kc); fn != nil {
+							if hd := p.DeclOf(fn); hd != nil && hd.Decl.Body != nil && hd.Decl.Type.Params != nil {
+								for ai, a := range kc.Args {
+									if identObj(info, a) != v {
+										continue
+									}
+									var prm types.Object
+									idx := 0
+									for _, fld := range hd.Decl.Type.Params.List {
+										for _, nm := range fld.Names {
+											if idx == ai {
+												prm = hd.Info().Defs[nm]
+											}
+											idx++
+										}
+									}
+									if prm == nil {
+										continue
+									}
+									ast.Inspect(hd.Decl.Body, func(hn ast.Node) bool {
+										if hc, ok := hn.(*ast.CallExpr); ok {
+											if hs, ok := hc.Fun.(*ast.SelectorExpr); ok && hs.Sel.Name == "Unlock" && identObj(hd.Info(), hs.X) == prm {
+												has = true
+											}
+										}
+										return true
+									})
+								}
+							}
+						}
 					}
 					return true
 				})
@@ -758,7 +790,9 @@ func c09Tamper(c *Ctx) {
 	if nmf := p.Func("private/bufpkg/bufmodule", "newModuleData"); nmf != nil && nmf.Obj != nil {
 		if nsf := p.SSAFunc(nmf.Obj); nsf != nil {
 			for _, a := range nsf.AnonFuncs {
-				for _, f := range reachSSA(a, 1) {
+				reach := reachSSA(a, 3)
+				isChecker := false
+				for _, f := range reach {
 					if f.Pkg == nil || f.Pkg.Pkg != pk.Types {
 						continue
 					}
@@ -766,6 +800,16 @@ func c09Tamper(c *Ctx) {
 						if calleeIs(staticCalleeObj(call.Call), "private/bufpkg/bufmodule", "DigestEqual") && !checkerFns[f] {
 							checkerFns[f] = true
 							checkBodies = append(checkBodies, f)
+							isChecker = true
+						}
+					}
+				}
+				if isChecker {
+					// everything the check is made of (the closure body may have been split into methods of moduleData)
+					// is the check, not an accessor that must run the check first
+					for _, f := range reach {
+						if f.Pkg != nil && f.Pkg.Pkg == pk.Types && f.Signature.Recv() != nil && namedName(f.Signature.Recv().Type()) == "moduleData" {
+							checkerFns[f] = true
 						}
 					}
 				}
@@ -841,7 +885,7 @@ func c09Tamper(c *Ctx) {
 		c.Ob("TAMPER", "newModuleData/checkDigest/nil-only-when-equal", a.Pos(), okAll && nNil > 0, true, "%d nil return(s) in the digest check, all on the true edge of DigestEqual(expected, actual): %v", nNil, okAll)
 		// the compared values: expected from moduleKey.Digest(), actual from a digest computation over the bucket
 		exp := dependsOnCall(deq.Call.Args[0], func(cc *ssa.CallCommon) bool { return cc.IsInvoke() && cc.Method.Name() == "Digest" })
-		act := dependsOnCall(deq.Call.Args[1], func(cc *ssa.CallCommon) bool {
+		act := dependsOnCallDeep(deq.Call.Args[1], func(cc *ssa.CallCommon) bool {
 			fn := staticCalleeObj(cc)
 			return fn != nil && (fn.Name() == "getB5DigestForBucketAndDepModuleKeys" || fn.Name() == "getB4Digest")
 		})
